@@ -6,12 +6,12 @@ from harness import common, gen, api
 LEVEL = "proof"
 
 
-def gen_fleet(chk, n):
+def gen_fleet(chk, n, first_frames=("body",)):
     rng = chk.rng
     acs = []
     for k in range(n):
         ac = gen.gen_aircraft(rng, chk.hist, max_wings=2, N=rng.randint(3, 4), sides=("both", "both", "right"))
-        st = gen.gen_state(rng, chk.hist, ang=5.0, pose=True, rate_frames=("body",))
+        st = gen.gen_state(rng, chk.hist, ang=5.0, pose=True, rate_frames=first_frames if k == 0 else ("body",))
         st["position"] = [rng.uniform(-15, 15), k * rng.uniform(9, 16) - 10, rng.uniform(-8, 8) - 500.0]
         acs.append((("uav", "uav_2", "uav_21")[k], ac, st, gen.gen_controls(rng, ac)))      # names contained in one another on purpose
     return acs
@@ -28,7 +28,12 @@ def run(chk):
     for it in range(n):
         sd = gen.gen_scene(rng, chk.hist, rho=rng.choice(["const", "standard"]), wind=rng.random() < 0.3)
         na = rng.choice([2, 2, 3])
-        acs = gen_fleet(chk, na)
+        # selections: the first aircraft gives its rates in stability / wind axes (what one aircraft's analysis sets up must not leak into the next one's)
+        acs = gen_fleet(chk, na, first_frames=("stab", "wind") if it % 5 == 2 else ("body",))
+        if it % 10 in (0, 3):
+            # aircraft in different attitudes with the trailing sheet constrained to each aircraft's own plane
+            sd["solver"]["constrain_vortex_sheet"] = True
+            chk.count("forced=constrain_vortex_sheet")
         try:
             base_sc = gen.build_scene(MX, sd, acs)
             base = api.solve(base_sc, report_by_segment=True)
